@@ -41,7 +41,7 @@ class Layout:
             if len(outs) != 1:
                 raise AnalysisError("R-MEM: field_offset(%s, %d) of %s could not be folded" % (num, i, tg.b))
             r = outs[0].result
-            return r.fields["val"] if isinstance(r, Adt) else r
+            return interp.sole_int(r)
         self.fst = [fo("Fst", i) for i in range(self.F + 1)]
         self.snd = [fo("Snd", i) for i in range(self.F)]
         self.block = self.fst[self.F]
@@ -70,7 +70,7 @@ def _imm_const(tg, name):
     if "val" in c:
         return c["val"]
     v = interp.parse_repr(c["repr"], c["ty"], tg.ctx.fx, crate=tg.crate)
-    return v.fields["val"]
+    return interp.sole_int(v)
 
 
 def _reg_const(tg, name):
